@@ -54,6 +54,13 @@ func (b *builder) bytes(role string, v []byte) []byte {
 	return buf.Slice()
 }
 
+// bytesFor is bytes for a second constructor called in the same breath (signer and verifier, encrypt and decrypt).
+func (b *builder) bytesFor(op, role string, v []byte) []byte {
+	buf := b.w.in(op, role, v, b.w.nextSpare())
+	b.bufs = append(b.bufs, buf)
+	return buf.Slice()
+}
+
 // secret wraps secret bytes the way a caller has to: secretdata.NewBytesFromData over the caller's slice.
 func (b *builder) secret(role string, s secretdata.Bytes) secretdata.Bytes {
 	const op = "secretdata.NewBytesFromData"
